@@ -1,17 +1,12 @@
 /-
-Simulation of the lazy object by the eager one, operation by operation.
+Simulation of the lazy object by the eager one, operation by operation, and its lift to a heap of
+objects (copies, `a + b`, `list + a`, `a += b`, `a == b`, constructor from a `CompilerArgs`).
 -/
 import MesonModel.ArgList.Lemmas
 
 namespace MesonModel.ArgList
 
 variable {K : Classify}
-
-/-- the operations whose result the property speaks about: everything except `len()`, which counts
-the pending queues without flushing -/
-def Op.claimed : Op → Bool
-  | .len => false
-  | _ => true
 
 theorem inv_appendDirect (s : State) (a : Arg) : Inv K (appendDirect K s a) := by
   unfold appendDirect
@@ -38,23 +33,15 @@ theorem inv_step (cfg : Cfg) (s : State) (op : Op) (hi : Inv cfg.K s) : Inv cfg.
   case appendDirect a => exact inv_appendDirect s a
   case extendDirect l => exact inv_extendDirect s l
   case extendLflags l => exact inv_extendDirect _ _
-  case insert i a => exact inv_clean s _
-  case setItem i a => split <;> first | exact inv_clean s _ | exact inv_flush s
-  case delItem i => split <;> first | exact inv_clean s _ | exact inv_flush s
-  case getItem i => split <;> exact inv_flush s
-  case iter => exact inv_flush s
-  case copy => exact inv_flush s
-  case len => exact hi
-  case eqList l => exact inv_flush s
-  case toNative c => split <;> first | exact inv_clean s _ | exact inv_flush s
+  all_goals (repeat' split) <;> first | exact inv_clean s _ | exact inv_flush s
 
 theorem extendDirect_flush (s : State) (l : List Arg) :
     extendDirect K (flush K s) l = extendDirect K s l := by
   simp [extendDirect, flush_flush]
 
-/-- **one step of the simulation**: from a state and from its flushed form, a claimed operation gives
-the same output and states with the same flushed form -/
-theorem step_flush (cfg : Cfg) (s : State) (op : Op) (hi : Inv cfg.K s) (hc : op.claimed = true) :
+/-- **one step of the simulation**: from a state and from its flushed form, every operation gives the
+same output and states with the same flushed form -/
+theorem step_flush (cfg : Cfg) (s : State) (op : Op) (hi : Inv cfg.K s) :
     (step cfg (flush cfg.K s) op).2 = (step cfg s op).2 ∧
     flush cfg.K (step cfg (flush cfg.K s) op).1 = flush cfg.K (step cfg s op).1 := by
   cases op <;> simp only [step, flush_flush, and_self, true_and]
@@ -65,31 +52,176 @@ theorem step_flush (cfg : Cfg) (s : State) (op : Op) (hi : Inv cfg.K s) (hc : op
   case extendLflags l =>
     simp only [extendLflags]
     rw [← extendDirect_flush (iadd cfg.K (flush cfg.K s) _), flush_iadd_flush s _ hi, extendDirect_flush]
-  case len => simp [Op.claimed] at hc
 
-theorem runLazy_eq_runEager_flush (cfg : Cfg) (ops : List Op) (s : State) (hi : Inv cfg.K s)
-    (hc : ∀ op ∈ ops, op.claimed = true) :
+theorem runLazy_eq_runEager_flush (cfg : Cfg) (ops : List Op) (s : State) (hi : Inv cfg.K s) :
     runLazy cfg s ops = runEager cfg (flush cfg.K s) ops := by
   induction ops generalizing s with
   | nil => rfl
   | cons op ops ih =>
-    have h := step_flush cfg s op hi (hc op List.mem_cons_self)
+    have h := step_flush cfg s op hi
     simp only [runLazy, runEager, stepEager]
     rw [h.1, h.2]
     congr 1
-    exact ih _ (inv_step cfg s op hi) (fun o ho => hc o (List.mem_cons_of_mem _ ho))
+    exact ih _ (inv_step cfg s op hi)
 
-theorem finalLazy_eq_finalEager_flush (cfg : Cfg) (ops : List Op) (s : State) (hi : Inv cfg.K s)
-    (hc : ∀ op ∈ ops, op.claimed = true) :
+theorem finalLazy_eq_finalEager_flush (cfg : Cfg) (ops : List Op) (s : State) (hi : Inv cfg.K s) :
     finalLazy cfg s ops = finalEager cfg (flush cfg.K s) ops := by
   induction ops generalizing s with
   | nil => simp [finalLazy, finalEager, flush_flush]
   | cons op ops ih =>
-    have h := step_flush cfg s op hi (hc op List.mem_cons_self)
+    have h := step_flush cfg s op hi
     simp only [finalLazy, finalEager, stepEager]
     rw [h.2]
-    exact ih _ (inv_step cfg s op hi) (fun o ho => hc o (List.mem_cons_of_mem _ ho))
+    exact ih _ (inv_step cfg s op hi)
 
 theorem flush_mk (l : List Arg) : flush K (mk l) = mk l := by simp [flush, mk]
+
+/-! ### several objects -/
+
+/-- every object of the heap satisfies the queue invariant -/
+def HInv (K : Classify) (h : List State) : Prop := ∀ s ∈ h, Inv K s
+
+/-- the abstraction: flush every object -/
+def flushAll (K : Classify) (h : List State) : List State := h.map (flush K)
+
+/-- eager meaning on a heap: every object is flushed after every operation -/
+def hstepEager (cfg : Cfg) (h : List State) (op : HOp) : List State × Out :=
+  let r := hstep cfg h op
+  (flushAll cfg.K r.1, r.2)
+
+def hrunEager (cfg : Cfg) (h : List State) : List HOp → List Out
+  | [] => []
+  | op :: ops => let r := hstepEager cfg h op; r.2 :: hrunEager cfg r.1 ops
+
+theorem flushAll_flushAll (h : List State) : flushAll K (flushAll K h) = flushAll K h := by
+  simp [flushAll, List.map_map, Function.comp_def, flush_flush]
+
+theorem flushAll_set (h : List State) (i : Nat) (s : State) :
+    flushAll K (h.set i s) = (flushAll K h).set i (flush K s) := by
+  simp [flushAll, List.map_set]
+
+theorem flushAll_append (h g : List State) : flushAll K (h ++ g) = flushAll K h ++ flushAll K g := by
+  simp [flushAll]
+
+theorem flushAll_get (h : List State) (i : Nat) : (flushAll K h)[i]? = h[i]?.map (flush K) := by
+  simp [flushAll]
+
+theorem hinv_set {h : List State} (hh : HInv K h) (i : Nat) {s : State} (hs : Inv K s) : HInv K (h.set i s) := by
+  intro t ht
+  rcases List.mem_or_eq_of_mem_set ht with ht | rfl
+  · exact hh t ht
+  · exact hs
+
+theorem hinv_append {h : List State} (hh : HInv K h) {s : State} (hs : Inv K s) : HInv K (h ++ [s]) := by
+  intro t ht
+  rcases List.mem_append.mp ht with ht | ht
+  · exact hh t ht
+  · rw [List.mem_singleton.mp ht]; exact hs
+
+theorem hinv_get {h : List State} (hh : HInv K h) {i : Nat} {s : State} (hs : h[i]? = some s) : Inv K s :=
+  hh s (List.mem_of_getElem? hs)
+
+theorem hinv_hstep (cfg : Cfg) (h : List State) (op : HOp) (hh : HInv cfg.K h) : HInv cfg.K (hstep cfg h op).1 := by
+  cases op <;> simp only [hstep]
+  case on i op =>
+    cases hi : h[i]? with
+    | none => exact hh
+    | some s => exact hinv_set hh i (inv_step cfg s op (hinv_get hh hi))
+  case copy i =>
+    cases hi : h[i]? with
+    | none => exact hh
+    | some s => exact hinv_append (hinv_set hh i (inv_flush s)) (inv_mk _)
+  case newFrom i =>
+    cases hi : h[i]? with
+    | none => exact hh
+    | some s => exact hinv_append (hinv_set hh i (inv_flush s)) (inv_mk _)
+  case add i b =>
+    cases hi : h[i]? with
+    | none => exact hh
+    | some s => exact hinv_append (hinv_set hh i (inv_flush s)) (inv_iadd _ _ (inv_mk _))
+  case radd b i =>
+    cases hi : h[i]? with
+    | none => exact hh
+    | some s => exact hinv_append (hinv_set hh i (inv_flush s)) (inv_iadd _ _ (inv_mk _))
+  case iaddObj i j =>
+    cases hj : h[j]? with
+    | none => exact hh
+    | some sj =>
+      have h1 : HInv cfg.K (h.set j (flush cfg.K sj)) := hinv_set hh j (inv_flush sj)
+      simp only
+      cases hi : (h.set j (flush cfg.K sj))[i]? with
+      | none => exact h1
+      | some si => exact hinv_set h1 i (inv_iadd _ _ (hinv_get h1 hi))
+  case eqObj i j =>
+    cases hi : h[i]? with
+    | none => exact hh
+    | some si =>
+      have h1 : HInv cfg.K (h.set i (flush cfg.K si)) := hinv_set hh i (inv_flush si)
+      simp only
+      cases hj : (h.set i (flush cfg.K si))[j]? with
+      | none => exact h1
+      | some sj => exact hinv_set h1 j (inv_flush sj)
+  case new init => exact hinv_append hh (inv_mk init)
+
+/-- **one step of the heap simulation** -/
+theorem hstep_flush (cfg : Cfg) (h : List State) (op : HOp) (hh : HInv cfg.K h) :
+    (hstep cfg (flushAll cfg.K h) op).2 = (hstep cfg h op).2 ∧
+    flushAll cfg.K (hstep cfg (flushAll cfg.K h) op).1 = flushAll cfg.K (hstep cfg h op).1 := by
+  cases op <;> simp only [hstep, flushAll_get]
+  case on i op =>
+    cases hi : h[i]? with
+    | none => simp [flushAll_flushAll]
+    | some s =>
+      have hs := step_flush cfg s op (hinv_get hh hi)
+      simp only [Option.map_some, flushAll_set, flushAll_flushAll, hs.1, hs.2, and_self]
+  case copy i =>
+    cases hi : h[i]? with
+    | none => simp [flushAll_flushAll]
+    | some s => simp [flushAll_set, flushAll_append, flushAll_flushAll, flush_flush]
+  case newFrom i =>
+    cases hi : h[i]? with
+    | none => simp [flushAll_flushAll]
+    | some s => simp [flushAll_set, flushAll_append, flushAll_flushAll, flush_flush]
+  case add i b =>
+    cases hi : h[i]? with
+    | none => simp [flushAll_flushAll]
+    | some s => simp [flushAll_set, flushAll_append, flushAll_flushAll, flush_flush]
+  case radd b i =>
+    cases hi : h[i]? with
+    | none => simp [flushAll_flushAll]
+    | some s => simp [flushAll_set, flushAll_append, flushAll_flushAll, flush_flush]
+  case new init => simp [flushAll_append, flushAll_flushAll]
+  case iaddObj i j =>
+    cases hj : h[j]? with
+    | none => simp [flushAll_flushAll]
+    | some sj =>
+      have h1 : HInv cfg.K (h.set j (flush cfg.K sj)) := hinv_set hh j (inv_flush sj)
+      simp only [Option.map_some, ← flushAll_set]
+      simp only [flushAll_get, flush_flush]
+      cases hi : (h.set j (flush cfg.K sj))[i]? with
+      | none => simp [flushAll_flushAll]
+      | some si =>
+        simp only [Option.map_some, flushAll_set, flushAll_flushAll, flush_flush,
+          flush_iadd_flush si _ (hinv_get h1 hi), and_self]
+  case eqObj i j =>
+    cases hi : h[i]? with
+    | none => simp [flushAll_flushAll]
+    | some si =>
+      simp only [Option.map_some, ← flushAll_set]
+      simp only [flushAll_get, flush_flush]
+      cases hj : (h.set i (flush cfg.K si))[j]? with
+      | none => simp [flushAll_flushAll]
+      | some sj => simp [flushAll_set, flushAll_flushAll, flush_flush]
+
+theorem hrun_eq_hrunEager_flush (cfg : Cfg) (ops : List HOp) (h : List State) (hh : HInv cfg.K h) :
+    hrun cfg h ops = hrunEager cfg (flushAll cfg.K h) ops := by
+  induction ops generalizing h with
+  | nil => rfl
+  | cons op ops ih =>
+    have hs := hstep_flush cfg h op hh
+    simp only [hrun, hrunEager, hstepEager]
+    rw [hs.1, hs.2]
+    congr 1
+    exact ih _ (hinv_hstep cfg h op hh)
 
 end MesonModel.ArgList
